@@ -102,6 +102,7 @@ def evaluate(run, cases, exe, drv):
     impl = fw.run_lines(exe, lines, extra=EXTRA)
     mlines = []
     parsed = {}
+    pending = []
     for i, (st, b, origin) in enumerate(cases):
         cid = 'q%d' % i
         o = parse(impl.get(cid, '(missing)'))
@@ -155,7 +156,10 @@ def evaluate(run, cases, exe, drv):
                     # the Value decoder parses: not comparable through deserialize_any
                     run.count('agreement-skipped-logical-content')
                 else:
-                    run.fail('decoders-disagree', 'generic decoder %s, schema-aware deserializer ok' % show(dec)[:80], case)
+                    # the generic decoder may refuse a complete datum for its SIZE (allocation limit on the
+                    # Values it would build, which a serde target does not build): decided below by the model
+                    # decoder run without a limit
+                    pending.append((cid, case, show(dec)[:80], deser[1]))
         # a target that ignores everything (IgnoredAny) must still see a complete datum: whenever it
         # succeeds the generic decoder succeeds and both consumed the same bytes
         ign = o[7] if len(o) > 7 else None
@@ -174,6 +178,20 @@ def evaluate(run, cases, exe, drv):
         m = parse(model.get(cid, '(missing)'))
         if tag(m) != tag(dec) or (tag(m) == 'ok' and (canon(m[1], True) != canon(dec[1], True) or m[2] != dec[2])):
             run.disagree('decode', case, show(dec)[:300], show(m)[:300])
+    settle_pending(run, pending, parsed, drv)
+
+def settle_pending(run, pending, parsed, drv):
+    if not pending:
+        return
+    big = '(cfg 4611686018427387904 56 80)'
+    ml = ['%s (decode %s %s %s)' % (cid, big, show(parsed[cid][1]), hx(bytes.fromhex(case['bytes']))) for cid, case, _, _ in pending]
+    mod = fw.run_lines(drv, ml)
+    for cid, case, dtxt, rest in pending:
+        m = parse(mod.get(cid, '(missing)'))
+        if tag(m) == 'ok' and m[2] == rest:
+            run.count('agreement-skipped-allocation-limit')
+        else:
+            run.fail('decoders-disagree', 'generic decoder %s, schema-aware deserializer ok (model without limit: %s)' % (dtxt, show(m)[:40]), case)
 
 def run(tier, seed):
     run_ = fw.Run(PROP, tier, seed)
